@@ -261,9 +261,9 @@ let run (_prop : string) (inp : Sx.t) (obs : Sx.t) : outcome =
   | Sx.L [Sx.A "ts-read"; b] ->
       let d = bytes_sx b in let m = ts_read_model d in
       out ~nontrivial:(d <> []) m (cls_of ("ts-read/len" ^ string_of_int (List.length d)) m) (ts_read_spec_check d obs)
-  | Sx.L [Sx.A "ts-write"; sec; ns; p] ->
+  | Sx.L (Sx.A "ts-write" :: sec :: ns :: p :: ([] | [_] as zone)) ->
       let sec = z_sx sec and ns = z_sx ns and p = z_sx p in
-      out (ts_write_model sec ns p) ("ts-write/p" ^ Sx.atom (sx_z p) ^ (if ts_in_rangeb (sec, ns) then "" else ":out-of-range"))
+      out (ts_write_model sec ns p) ("ts-write/p" ^ Sx.atom (sx_z p) ^ (if zone = [] then "" else ":zoned") ^ (if ts_in_rangeb (sec, ns) then "" else ":out-of-range"))
         (ts_write_spec_check sec ns p obs)
   | Sx.L [Sx.A "float-read"; b] ->
       let d = bytes_sx b in let m = float_read_model d in
